@@ -141,8 +141,10 @@ Print Assumptions R_move_def.
    own addresses (its own `.`), anywhere in the program.  [plainf names body]: the body consists of instructions,
    data / fill / string directives, insert_file, nested .repeat (what the code allows inside a repeat: no labels,
    definitions, .link, `. =`, .include, .extern, .end) and mentions none of [names] = the local-label names of the
-   program -- inside a .repeat no local label is visible, at the top level the current scope is *)
+   program -- inside a .repeat no local label is visible, at the top level the current scope is.  n <= 65536: the
+   code refuses more repetitions than that in one compilation (MAX_REPETITIONS), the written-out body has no such cap *)
 Theorem R_repeat_unroll : forall enc l1 l2 n body,
+  (Z.of_nat n <= 65536) ->
   forallb (plainf (lnames (l1 ++ l2))) body = true ->
   assemble enc (l1 ++ [Repeat (numlit n) body] ++ l2) = assemble enc (l1 ++ concat (repeat body n) ++ l2).
 Proof. exact repeat_unroll. Qed.
